@@ -639,6 +639,110 @@ def callee_relevant(universe, name, where):
     return res
 
 
+# ---- values obtained from memoised queries must not be changed in place ------------------
+ALIAS_FUNCS = {'csr_matrix', 'csc_matrix', 'coo_matrix', 'lil_matrix', 'asarray', 'asanyarray',
+               'ascontiguousarray', 'atleast_1d', 'atleast_2d', 'squeeze', 'ravel', 'reshape', 'transpose'}
+ALIAS_METHODS = {'tocsr', 'tocoo', 'tocsc', 'asformat', 'view', 'reshape', 'ravel', 'squeeze', 'transpose'}
+ALIAS_ATTRS = {'T', 'data', 'indices', 'indptr', 'real', 'imag', 'flat'}
+INPLACE_METHODS = {'setdiag', 'eliminate_zeros', 'sum_duplicates', 'sort_indices', 'prune', 'resize',
+                   'fill', 'sort', 'put', 'itemset', 'partition', 'setfield', 'append', 'extend',
+                   'update', 'pop', 'clear', 'insert', 'remove', 'reverse'}
+
+
+def _copy_false(call):
+    return any(kw.arg == 'copy' and isinstance(kw.value, ast.Constant) and kw.value.value is False
+               for kw in call.keywords)
+
+
+def alias_root(e, tainted, cached, is_self):
+    """name of the memoised-result source an expression may alias, else None"""
+    if isinstance(e, ast.Name):
+        return tainted.get(e.id)
+    if isinstance(e, ast.Call):
+        f = e.func
+        if isinstance(f, ast.Attribute) and is_self(f.value) and f.attr in cached:
+            return f.attr
+        if isinstance(f, ast.Attribute) and (f.attr in ALIAS_METHODS or (f.attr == 'astype' and _copy_false(e))):
+            return alias_root(f.value, tainted, cached, is_self)
+        fname = f.attr if isinstance(f, ast.Attribute) else (f.id if isinstance(f, ast.Name) else '')
+        if e.args and (fname in ALIAS_FUNCS or (fname == 'array' and _copy_false(e))):
+            return alias_root(e.args[0], tainted, cached, is_self)
+        return None
+    if isinstance(e, ast.Attribute) and e.attr in ALIAS_ATTRS:
+        return alias_root(e.value, tainted, cached, is_self)
+    if isinstance(e, ast.Subscript):
+        return alias_root(e.value, tainted, cached, is_self)
+    if isinstance(e, ast.IfExp):
+        return alias_root(e.body, tainted, cached, is_self) or alias_root(e.orelse, tainted, cached, is_self)
+    if isinstance(e, ast.Starred):
+        return alias_root(e.value, tainted, cached, is_self)
+    return None
+
+
+def taint_of(fn, cached):
+    def is_self(x):
+        return isinstance(x, ast.Name) and x.id == 'self'
+    tainted = {}
+    changed = True
+    while changed:
+        changed = False
+        for n in ast.walk(fn):
+            if isinstance(n, ast.Assign):
+                src = alias_root(n.value, tainted, cached, is_self)
+                if src is None:
+                    continue
+                for t in n.targets:
+                    names = [t] if isinstance(t, ast.Name) else \
+                        ([x for x in t.elts if isinstance(x, ast.Name)] if isinstance(t, (ast.Tuple, ast.List)) else [])
+                    for x in names:
+                        if x.id not in tainted:
+                            tainted[x.id] = src
+                            changed = True
+    return tainted, is_self
+
+
+def check_no_inplace_on_cached(universe, where, memoised):
+    """fail closed on `x = self.<memoised>(...)` (possibly through a wrapper that may share the
+    buffers) followed by an in-place change of x: the cache entry itself would change"""
+    cached = set(memoised)
+    changed = True
+    while changed:                      # methods that hand a cached object on
+        changed = False
+        for nm, fn in universe.items():
+            if nm in cached:
+                continue
+            tainted, is_self = taint_of(fn, cached)
+            for n in ast.walk(fn):
+                if isinstance(n, ast.Return) and n.value is not None and \
+                        alias_root(n.value, tainted, cached, is_self):
+                    cached.add(nm)
+                    changed = True
+                    break
+    for nm, fn in universe.items():
+        tainted, is_self = taint_of(fn, cached)
+
+        def bad(node, src, what):
+            raise TranslateError(f'{where.get(nm, "?")}:{node.lineno}: {nm}: {what} changes in place a value '
+                                 f'obtained from the memoised query {src} (no copy in between): the cache '
+                                 f'entry itself would change; not modelled')
+        for n in ast.walk(fn):
+            if isinstance(n, ast.Call) and isinstance(n.func, ast.Attribute) and n.func.attr in INPLACE_METHODS:
+                src = alias_root(n.func.value, tainted, cached, is_self)
+                if src:
+                    bad(n, src, '.' + n.func.attr + '()')
+            tgts = []
+            if isinstance(n, ast.Assign):
+                tgts = [t for t in n.targets if isinstance(t, (ast.Subscript, ast.Attribute))]
+            elif isinstance(n, ast.AugAssign):
+                tgts = [n.target]
+            for t in tgts:
+                base = t.value if isinstance(t, (ast.Subscript, ast.Attribute)) else t
+                src = alias_root(base, tainted, cached, is_self)
+                if src:
+                    bad(n, src, 'an assignment')
+    return sorted(cached)
+
+
 def load_classes(repo, files):
     classes = {}
     srcs = {}
@@ -756,6 +860,10 @@ def translate(repo):
                 raise TranslateError(f'{nm}: memoised class/static method')
             continue
         facts[nm] = Analyzer(fn, universe, 'self', where[nm]).run()
+
+    check_no_inplace_on_cached(
+        {nm: fn for nm, fn in universe.items() if nm in facts}, where,
+        {nm for nm, f in facts.items() if f.lru is not None})
 
     # ---- writers
     writer_facts = {}
